@@ -10,6 +10,10 @@ CLAIMED = {
          "Generated-input exploration: every generated (payload, framing, chunk plan, trailing bytes, segmentation, read plan) is sent through the production response pipeline and the delivered bytes are compared with the payload the reference builder framed. Holds on everything explored; not a proof of absence.",
          "Trusts the scripted transport hook (injected at BaseStream::connect) and the harness's own response builder; TLS and real sockets are not in this path.",
          "DESIGN.md §4 C01"),
+ "C02": ("property-based fault injection (proptest): connection cuts at every offset of small wires, injected I/O errors, corrupted chunk-framing bytes; invariants over the read history",
+         "Generated-fault exploration: a valid response plus one fault (cut / I/O error then resume, keep failing or EOF / corrupted framing byte), read with a generated plan and 0..6 further reads after the first error; asserts prefix-of-payload at every step, no clean EOF on an incomplete or corrupt frame, helpers return Err, no panic.",
+         "Trusts the scripted transport and the harness's builder; faults are injected at the transport, below BufReader.",
+         "DESIGN.md §4 C02"),
 }
 hooks_commits = subprocess.run(["git","-C","/repo","log","--format=%h %s"],capture_output=True,text=True).stdout.splitlines()
 hook_commits = [l.split()[0] for l in hooks_commits if l.split(' ',1)[1].startswith('verif-hooks')]
